@@ -65,7 +65,9 @@
 (*  - commitments of the reply that the finalizer also holds in its own    *)
 (*    context (self-invoice) may be dropped or mangled: they are re-added; *)
 (*  - in a late-locked send the payment-proof record is made from the      *)
-(*    REPLY, so a reply stripped of its proof finalizes without one (C11). *)
+(*    REPLY; until fix 2b7911c / 0c19747 a reply stripped of its proof     *)
+(*    finalized without one (C11) - the transcription now has the checks   *)
+(*    against the original send arguments / the context.                   *)
 (***************************************************************************)
 EXTENDS Integers, Sequences, FiniteSets, TLC
 
@@ -304,15 +306,20 @@ Asm(c, ctx0, r, mode) ==
   [ctx |-> ctx, inv |-> inv, amt |-> amt, fee |-> fee, parts1 |-> parts1, parts2 |-> parts2, idx |-> i, msg |-> msg,
    tx |-> [coms |-> coms, msg |-> msg, excess |-> XSum(parts2), agg |-> AggOf(parts2), off |-> off]]
 
+\* the recipient address the proof was requested from: Context.payment_proof_recipient_address and
+\* InitTxArgs.payment_proof_recipient_address (kept in late_lock_args); set together with pidx
+ReqAddr == "aC"
 ProofCheck(ctx, a, r) ==
   \* tx::verify_slate_payment_proof against the proof info stored with the TxSent entry at lock time
+  \* and (since 2b7911c / 0c19747) against what the context says was requested
   IF ~ctx.locked THEN "proof"                    \* no entry: "is account correct?"
-  ELSE IF ctx.entrypp.on /\ ~r.pp.on THEN "proof"
+  ELSE IF (ctx.entrypp.on \/ ctx.pidx) /\ ~r.pp.on THEN "proof"     \* proof_requested: entry OR context
   ELSE IF ~r.pp.on THEN "ok"
   ELSE IF ~ctx.entrypp.on THEN "proof"
   ELSE IF ~ctx.pidx THEN "proof"
   ELSE IF r.pp.saddr # "aF" THEN "proof"
   ELSE IF ctx.entrypp.raddr # r.pp.raddr THEN "proof"
+  ELSE IF r.pp.raddr # ReqAddr THEN "proof"      \* context.payment_proof_recipient_address
   ELSE IF r.pp.rsig = NoPSig THEN "proof"
   ELSE IF r.pp.rsig # PSig(r.pp.raddr, a.amt, a.tx.excess, "aF") THEN "proof"
   ELSE "ok"
@@ -326,8 +333,11 @@ Finalize(c, ctxs, r) ==
       inv == r.st = "I2"
       a == Asm(c, ctx0, r, "code")
       tx == a.tx IN
+  \* S2 branch, late lock (since 2b7911c): before anything is selected or locked the reply must carry a
+  \* proof naming the recipient the original send arguments asked for
+  IF ~inv /\ ctx0.late /\ ctx0.pidx /\ ~(r.pp.on /\ r.pp.raddr = ReqAddr) THEN Err("proof")
   \* S2 branch, late lock: lock_tx_context wants the derivation index when the reply carries a proof
-  IF ~inv /\ ctx0.late /\ r.pp.on /\ ~ctx0.pidx THEN Err("proof")
+  ELSE IF ~inv /\ ctx0.late /\ r.pp.on /\ ~ctx0.pidx THEN Err("proof")
   ELSE IF ~inv /\ a.fee = -1 THEN Err("fee")                         \* "Missing fee fields"
   ELSE IF ~r.hascoms THEN Err("notx")                                \* update_kernel: SlateTransactionRequired
   ELSE IF a.msg = BadMsg THEN Err("features")                        \* update_kernel: kernel_features()
